@@ -55,3 +55,17 @@ def sha256(data):
     for i in range(0, len(data), 64):
         st = compress(st, data[i:i + 64])
     return struct.pack(">8I", *st)
+
+
+def finish_from_midstate(state, counter, tail):
+    """SHA-256 digest of a message whose first ``counter`` bytes (a multiple of 64) left the
+    compression state ``state`` and whose remaining bytes are ``tail``"""
+    total_bits = (counter + len(tail)) * 8
+    data = bytes(tail) + b"\x80"
+    while len(data) % 64 != 56:
+        data += b"\x00"
+    data += struct.pack(">Q", total_bits & ((1 << 64) - 1))
+    st = tuple(state)
+    for i in range(0, len(data), 64):
+        st = compress(st, data[i:i + 64])
+    return struct.pack(">8I", *st)
